@@ -256,18 +256,25 @@ def run(ctx):
             ctx.inst("C18/D4", "the bytes hashed are buf[0..n] of the same read", okd, "; ".join(detail), ut["at"])
             # all contexts updated: update's receiver is the element of a loop over values_mut() of the context map
             cl = b.trace(ut["args"][0])
-            ctx_all = bool(cl) and all("HashMap::values_mut" in l.via or "HashMap::iter_mut" in l.via for l in cl) and \
+            ctx_all = bool(cl) and all("HashMap::values_mut" in l.via or "HashMap::iter_mut" in l.via or
+                                       (l.kind == "call" and callee_name(l.data[1]) in ("core::slice::iter_mut", "std::vec::Vec::iter_mut") and l.path[:1] == (ELEM,))
+                                       for l in cl) and \
                 not any(x in " ".join(l.via) for l in cl for x in ("take", "skip", "filter"))
             lp = [l for l in b.loops().values() if ui in l]
             no_exit = bool(lp) and not b.continuing_exits(min(lp, key=len))
             ctx.inst("C18/D4", "every digest context is updated", ctx_all and no_exit,
                      "update receiver <- {%s}; inner loop without early exit: %s" % (", ".join(leaf_s(b, l) for l in cl), no_exit), ut["at"])
             # one context per requested algorithm
-            ins = b.calls_named("std::collections::HashMap::insert")
+            ins = b.calls_named("std::collections::HashMap::insert", "std::collections::BTreeMap::insert", "std::vec::Vec::push")
             okc = False
             for (i, t) in ins:
-                kl = b.trace(t["args"][1])
-                vl = b.trace(t["args"][2], (), lambda tt: (callee_name(tt) or "").endswith("digest_context"))
+                if callee_name(t) == "std::vec::Vec::push":
+                    # a vector of (algorithm, context) pairs instead of a map
+                    kl = b.trace(t["args"][1], (F0,))
+                    vl = b.trace(t["args"][1], (F1,), lambda tt: (callee_name(tt) or "").endswith("digest_context"))
+                else:
+                    kl = b.trace(t["args"][1])
+                    vl = b.trace(t["args"][2], (), lambda tt: (callee_name(tt) or "").endswith("digest_context"))
                 key_alg = bool(kl) and all(l.kind == "param" and l.data == 2 and l.path == (ELEM,) for l in kl)
                 val_ctx = bool(vl) and all(l.kind == "call" and (callee_name(l.data[1]) or "").endswith("HashAlgorithm::digest_context") and
                                            root_ids(b, l.data[1]["args"][0]) == frozenset([("param", 2, (ELEM,))]) for l in vl)
@@ -279,7 +286,10 @@ def run(ctx):
                 cb = body_of(fx, ck)
                 fin += cb.calls_named("ring::digest::Context::finish")
             dr = b.calls_named("std::collections::HashMap::drain", "std::collections::HashMap::into_iter", "std::iter::IntoIterator::into_iter")
-            ctx.inst("C18/D4", "every context is finished into the result", len(fin) == 1 and bool(b.calls_named("std::collections::HashMap::drain")),
+            drained = bool(b.calls_named("std::collections::HashMap::drain")) or any(
+                "ring::digest::Context" in " ".join(t.get("arg_tys") or []) and not (t.get("arg_tys") or [""])[0].startswith("&")
+                for (i, t) in b.calls_named("std::iter::IntoIterator::into_iter"))
+            ctx.inst("C18/D4", "every context is finished into the result", len(fin) == 1 and drained,
                      "finish() called in the closure mapping the drained context map: %s" % (len(fin) == 1), f["at"])
     # ---------------- D7
     # the prefix-stripping function, by role: reachable from record_artifacts, with a loop in which the path is tested / stripped
@@ -295,7 +305,58 @@ def run(ctx):
             lps = list(gb.loops().values())
             if any(callee_name(t) in ("core::str::strip_prefix", "core::str::starts_with") and any(i in l for l in lps) for (i, t) in gb.calls()):
                 f = g
-    if f is None:
+    # the same selection written as a pipeline: candidates.filter(|p| path.starts_with(p)).max_by_key(|p| p.len())
+    fpipe = None
+    if f is None and ra:
+        for k in sorted(ctx.cg.reachable([ra["key"]])):
+            g = fx.fns[k]
+            if g.get("exp") or g["kind"] not in ("Fn", "AssocFn") or not g["path"].startswith("runlib::"):
+                continue
+            gb = body_of(fx, k)
+            names = {callee_name(t) for (i, t) in gb.calls()}
+            if "core::str::strip_prefix" in names and names & {"std::iter::Iterator::max_by_key", "std::iter::Iterator::min_by_key", "std::iter::Iterator::max_by"}:
+                fpipe = g
+    if fpipe is not None:
+        b = Body(fpipe)
+        ctx.touch_body(b)
+        okl, detail = False, "no max_by_key(len) over the prefixes the path starts with"
+        for (mi, mt) in b.calls_named("std::iter::Iterator::max_by_key"):
+            # key function: the length of the candidate
+            p = op_place(mt["args"][1])
+            d = b.single_def(p["l"]) if p is not None and not p["p"] else None
+            key_len = False
+            if d and d.kind == "assign" and d.node["rv"].get("agg") == "closure" and d.node["rv"]["closure_key"] in fx.fns:
+                cb = body_of(fx, d.node["rv"]["closure_key"])
+                kl = cb.trace({"l": 0, "p": []})
+                key_len = bool(kl) and all(l.kind == "call" and callee_name(l.data[1]) in ("core::str::len", "str::len", "std::string::String::len") and
+                                           all(r[0] == "param" and r[1] == 2 for r in root_ids(cb, l.data[1]["args"][0])) for l in kl)
+            # candidates: filtered by starts_with
+            flt = False
+            cur = mt["args"][0]
+            for _ in range(6):
+                dc = def_call(b, cur)
+                if not dc:
+                    break
+                if callee_name(dc[1]) == "std::iter::Iterator::filter":
+                    pf = op_place(dc[1]["args"][1])
+                    df = b.single_def(pf["l"]) if pf is not None and not pf["p"] else None
+                    if df and df.kind == "assign" and df.node["rv"].get("agg") == "closure" and df.node["rv"]["closure_key"] in fx.fns:
+                        fb = body_of(fx, df.node["rv"]["closure_key"])
+                        fl = fb.trace({"l": 0, "p": []})
+                        flt = bool(fl) and all(l.kind == "call" and callee_name(l.data[1]) == "core::str::starts_with" for l in fl)
+                    break
+                cur = dc[1]["args"][0] if dc[1]["args"] else None
+                if cur is None:
+                    break
+            # the prefix that is stripped is the maximum found
+            used = False
+            for (si, st_) in b.calls_named("core::str::strip_prefix"):
+                lv = b.trace(st_["args"][1], (), lambda tt: tt is mt)
+                used = used or (bool(lv) and all(l.kind == "call" and l.data[0] == mi and l.path[:2] == (SOME, F0) for l in lv))
+            okl = okl or (key_len and flt and used)
+            detail = "max_by_key: key is the candidate's length: %s; candidates filtered by starts_with: %s; the maximum is what strip_prefix removes: %s" % (key_len, flt, used)
+        ctx.inst("C18/D7", "strip-prefix selection compares candidate length with the best so far", okl, detail, fpipe["at"])
+    elif f is None:
         ctx.bad("C18/D7", "strip-prefix selection", "no function reachable from record_artifacts strips candidate prefixes in a loop (failing closed)")
     else:
         b = Body(f)
